@@ -66,6 +66,11 @@ class VList(V):
 class VIter(V):
     def __init__(self, term, elem): self.term, self.elem = term, elem
 
+class VItems(V):
+    """a spelt-out sequence (`[a, b, c]`) or a chain of sequences: parts are values or iterators, in order"""
+    def __init__(self, parts, spelt=True): self.parts, self.spelt = parts, spelt
+    def __repr__(self): return 'Items(%d)' % len(self.parts)
+
 class VData(V):
     """opaque value of a local enum/struct; variant decided lazily"""
     def __init__(self, adt, term): self.adt, self.term = adt, term
@@ -596,6 +601,7 @@ class Interp:
 
     def ev_Array(self, e, env):
         items = [self.ev(f, env) for f in e['fields']]
+        if items and all(isinstance(x, (VBdd, VData, VCons, VSym)) for x in items): return VItems(items)
         return VOpaque(('array', e['loc']))
 
     def ev_Adt(self, e, env):
